@@ -16,6 +16,9 @@ RULE = ("greenlet parent chains of depth 1..N with call depth 1..3 inside each g
         "from inside the task and from a run_sync_soon callback. non-trivial = suspended greenlet with >=2 frames asked "
         "from a non-main greenlet, or a greenback depth >= 1; distinct by (chain shape, target index, asker)")
 ASSUMPTIONS = ["CPython 3.12 only (greenlet/greenback are installed for that interpreter only)",
+               "greenlet entry functions are Python functions (a suspended greenlet always has a gr_frame)",
+               "the greenback API functions the task itself called (with_portal_run*, greenback_shim) may be visible; "
+               "the bridging machinery (shims, trampoline, await_, switch) may not",
                "greenback bridging internals = frames of greenback._impl when awaiting coroutines (adapt_awaitable "
                "for non-coroutine awaitables is shown by design, see the repository's own test)"]
 MIN_NONTRIVIAL = {"quick": 500, "thorough": 5000}
@@ -24,7 +27,8 @@ REQUIRED_COUNTERS = {"asked_from_descendant": {"quick": 100, "thorough": 1000},
                      "asked_from_self": {"quick": 50, "thorough": 500},
                      "lifecycle_cases": {"quick": 10, "thorough": 30},
                      "frameless_parent_cases": {"quick": 6, "thorough": 6},
-                     "greenback_extractions": {"quick": 10, "thorough": 40}}
+                     "greenback_extractions": {"quick": 40, "thorough": 160},
+                     "portal_with_portal_run_sync": {"quick": 5, "thorough": 20}}
 SHARD_TIMEOUT = {"quick": 400, "thorough": 3600}
 
 
@@ -326,22 +330,39 @@ def worker(spec):
         trio.lowlevel.current_trio_token().run_sync_soon(report)
         await trio.lowlevel.wait_task_rescheduled(lambda _: trio.lowlevel.Abort.FAILED)
 
-    async def main(depth):
+    def sync_top(depth):
         log.append(sys._getframe(0))
-        await greenback.ensure_portal()
-        await async_lvl(0, depth)
+        return greenback.await_(async_lvl(0, depth))
 
-    mine = {f.__code__ for f in (sync_lvl, async_lvl, bottom, main)}
-    for depth in range(0, spec["max_depth"] + 1):
+    async def main(depth, portal):
+        log.append(sys._getframe(0))
+        if portal == "ensure_portal":
+            await greenback.ensure_portal()
+            await async_lvl(0, depth)
+        elif portal == "with_portal_run":
+            await greenback.with_portal_run(async_lvl, 0, depth)
+        elif portal == "with_portal_run_tree":
+            await greenback.with_portal_run_tree(async_lvl, 0, depth)
+        else:
+            # the portal lives in a synchronous shim: the task's coroutine chain ends in a generator-based
+            # coroutine whose greenlet holds everything inward
+            await greenback.with_portal_run_sync(sync_top, depth)
+
+    mine = {f.__code__ for f in (sync_lvl, async_lvl, bottom, main, sync_top)}
+    API = ("greenback_shim", "with_portal_run", "with_portal_run_sync", "with_portal_run_tree")
+    cases = [(d, p) for d in range(0, spec["max_depth"] + 1)
+             for p in ("ensure_portal", "with_portal_run", "with_portal_run_sync", "with_portal_run_tree")]
+    for depth, portal in cases:
         del log[:]
         results.clear()
-        trio.run(main, depth)
+        trio.run(main, depth, portal)
+        res.count("portal_" + portal)
         for where in ("inside", "outside"):
             s = results[where]
             res.evaluations += 1
             res.count("greenback_extractions")
             if depth >= 1:
-                res.nontrivial("greenback", depth, where)
+                res.nontrivial("greenback", depth, portal, where)
             problems = []
             if s.error is not None:
                 problems.append("error %r" % (s.error,))
@@ -353,11 +374,12 @@ def worker(spec):
                 problems.append("a harness frame is hidden")
             impl = [f for f in s.frames if (f.modname or "").startswith("greenback.")]
             shown = [f.funcname for f in impl if not f.hide]
-            if [n for n in shown if n != "greenback_shim"] or shown.count("greenback_shim") > 1:
+            # the API functions the task itself called may show; the bridging machinery may not
+            if [n for n in shown if n not in API] or shown.count("greenback_shim") > 1:
                 problems.append("greenback internals visible: %r" % (shown,))
             # order: every visible frame sequence must alternate exactly as the log (already checked by identity)
             if problems:
-                res.violation(kind="greenback-stack", depth=depth, where=where, problems=problems,
+                res.violation(kind="greenback-stack", depth=depth, portal=portal, where=where, problems=problems,
                               visible=[f.funcname for f in s.frames if not f.hide], interp=interp)
     res.sample({"greenback_depths": list(range(0, spec["max_depth"] + 1))})
     return res
